@@ -149,6 +149,10 @@ func c07Build(mem, svc int) *c07World {
 		{Hash: c07H1, Length: 0}:  {},
 		{Hash: c07H1, Length: 1}:  {5},
 		{Hash: c07H1, Length: 32}: {5, 10},
+		// every slot-count state with expired / unexpired middle slot (t = 100, D = 32)
+		{Hash: c07H1, Length: 7}: {1, 2, 3},
+		{Hash: c07H1, Length: 8}: {1, 95, 97},
+		{Hash: c07H1, Length: 9}: {5, 95},
 		{Hash: prov1, Length: 1}:  {},
 		{Hash: prov32, Length: 32}: {},
 	}
@@ -464,12 +468,12 @@ func c07Rows(r *vlib.Run) []c07Row {
 				return m != nil && m[2] != "100"
 			}},
 		{Op: QueryOp, Name: "query", Res: []int{7, 8}, SidReg: -1,
-			Axes: []c07Axis{{7, P()}, {8, []uint64{0, 1, 32, 50, 1 << 32, 1<<32 + 1}}}, In: in32(7)},
+			Axes: []c07Axis{{7, P()}, {8, []uint64{0, 1, 7, 8, 9, 32, 50, 1 << 32, 1<<32 + 1}}}, In: in32(7)},
 		{Op: SolicitOp, Name: "solicit", Res: []int{7}, SidReg: -1,
-			Axes: []c07Axis{{7, P()}, {8, []uint64{0, 1, 32, 50, 1 << 32, 1<<32 + 1}}}, In: in32(7),
+			Axes: []c07Axis{{7, P()}, {8, []uint64{0, 1, 7, 8, 9, 32, 50, 1 << 32, 1<<32 + 1}}}, In: in32(7),
 			Allow: c07Re(c07KVRe, c07AcctRe(c07Caller, "Items|Bytes"))},
 		{Op: ForgetOp, Name: "forget", Res: []int{7}, SidReg: -1,
-			Axes: []c07Axis{{7, P()}, {8, []uint64{0, 1, 32, 50, 1 << 32, 1<<32 + 1}}}, In: in32(7),
+			Axes: []c07Axis{{7, P()}, {8, []uint64{0, 1, 7, 8, 9, 32, 50, 1 << 32, 1<<32 + 1}}}, In: in32(7),
 			Allow: c07Re(c07KVRe, c07AcctRe(c07Caller, "Items|Bytes"),
 				`^args\.(AccumulateArgs\.ResultContextX\.PartialState\.ServiceAccounts|GeneralArgs\.ServiceAccountState\*)\[100\]\.PreimageLookup\[`, `^args\.GeneralArgs\.ServiceAccount\*\.PreimageLookup\[`)},
 		{Op: YieldOp, Name: "yield", Res: []int{7}, SidReg: -1,
@@ -745,6 +749,9 @@ func c07Presets() []c07Preset {
 		{"solicit(2 slots)", SolicitOp, [6]uint64{c07RO, 32}},
 		{"forget(empty)", ForgetOp, [6]uint64{c07RO, 0}},
 		{"forget(1 slot)", ForgetOp, [6]uint64{c07RO, 1}},
+		{"forget(3 slots)", ForgetOp, [6]uint64{c07RO, 7}},
+		{"forget(2 slots, expired)", ForgetOp, [6]uint64{c07RO, 32}},
+		{"solicit(2 slots, unexpired)", SolicitOp, [6]uint64{c07RO, 9}},
 		{"query", QueryOp, [6]uint64{c07RO, 1}},
 		{"yield", YieldOp, [6]uint64{c07RO}},
 		{"provide(self)", ProvideOp, [6]uint64{c07Max, c07RO, 1}},
